@@ -61,6 +61,35 @@ let judge (input : string) (impl : string) (model : string) : verdict =
           end) axes;
         !bad)
       then Violation ("accuracy", "component is not within one 2.14 unit of the exact value, or an end point is not exactly -1/0/+1")
+      else if avar <> None && (
+        (* through avar: compare with the exact piecewise-linear map of the default-normalised value,
+           for maps that are valid (strictly sorted knots, within [-1,1], containing the value);
+           tolerance = 2 + slope of the segment in use (the property's slope-scaled bound) *)
+        let maps = match avar with Some m -> m | None -> [] in
+        let bad = ref false in
+        List.iteri (fun i ((mn, df), mx) ->
+          if i < List.length maps && i < List.length iv then begin
+            let m = List.map (fun (f, t) -> (z_to_int f, z_to_int t)) (List.nth maps i) in
+            let sorted = let rec ok = function (f1, _) :: ((f2, _) :: _ as r) -> f1 < f2 && ok r | _ -> true in ok m in
+            let inrange = List.for_all (fun (f, t) -> abs f <= 16384 && abs t <= 16384) m in
+            if sorted && inrange && List.length m >= 2 then begin
+              let n = z_to_int (default_normalize mn df mx (List.nth coords i)) in   (* 16.16 *)
+              let rec seg = function
+                | (f1, t1) :: ((f2, t2) :: _ as r) ->
+                  if n >= f1 * 4 && n <= f2 * 4 then Some (f1, t1, f2, t2) else seg r
+                | _ -> None in
+              match seg m with
+              | Some (f1, t1, f2, t2) ->
+                let ideal = float_of_int t1 +. (float_of_int n /. 4.0 -. float_of_int f1) *. float_of_int (t2 - t1) /. float_of_int (f2 - f1) in
+                let ideal = max (-16384.0) (min 16384.0 ideal) in
+                let slope = abs_float (float_of_int (t2 - t1) /. float_of_int (f2 - f1)) in
+                let got = float_of_int (z_to_int (List.nth iv i)) in
+                if abs_float (got -. ideal) > 2.0 +. slope then bad := true
+              | None -> ()
+            end
+          end) axes;
+        !bad)
+      then Violation ("avar-accuracy", "component is not within the slope-scaled bound of the exact avar interpolation")
       else Mismatch "values differ from the model"
     end
     else Mismatch "result kinds differ"
